@@ -302,7 +302,7 @@ pub fn prop(c: &Case, log: &mut CaseLog) -> Verdict {
 }
 
 pub fn run_check(ctx: &mut Ctx) {
-    ctx.rule = "enumerated: 10 session states (no debugger client; client connected and initialized; launched on the test runner and stopped at a breakpoint; launched and running a long test; short test finished; a debugger client that connects between `shutdown` and `exit`; the debug port taken by someone else at start-up; stopped at a breakpoint after an odd but legal debug request - completions at the end of the text, variables of an unknown reference, a breakpoint on line 0 or in a source without a path; stepping over a call that never returns; launch in a project without mos.toml) x 4 orders (shutdown+exit; disconnect, shutdown, exit; shutdown, disconnect, exit; closing the client's end of the pipe without shutdown) x delay draws; oracle: exit status 0 within 10 s and the debug port bindable afterwards; a process that is still alive is a violation only with a witness: a deadlock (all threads sleeping, no CPU time consumed between two samples) or, 25 s after the end of the session, exactly one thread that has been computing for more than 10 s while all others sleep; otherwise inconclusive. every case is non-trivial".into();
+    ctx.rule = "enumerated: 10 session states (no debugger client; client connected and initialized; launched on the test runner and stopped at a breakpoint; launched and running a long test; short test finished; a debugger client that connects between `shutdown` and `exit`; the debug port taken by someone else at start-up; stopped at a breakpoint after an odd but legal debug request - completions at the end of the text, variables of an unknown reference, a breakpoint on line 0 or in a source without a path; stepping over a call that never returns; launch in a project without mos.toml) x 4 orders (shutdown+exit; disconnect, shutdown, exit; shutdown, disconnect, exit; closing the client's end of the pipe without shutdown) x delay draws; oracle: exit status 0 within 10 s and the debug port bindable afterwards; a process that is still alive is a violation only with a witness: a deadlock (all threads sleeping, no CPU time consumed between two samples) or, 25 s after the end of the session, exactly one thread that has been computing for more than 10 s while all others sleep; otherwise inconclusive. A session state that cannot be set up within the time limits (server start, debug port, stopped/terminated event) is not judged; more than 5% of such cases is a health problem. every case is non-trivial".into();
     if !have_mos() {
         ctx.health(false, "mos binary not built (MOS_BIN)");
         return;
